@@ -550,6 +550,45 @@ def sec_optimizer(ck, algo_name):
 
 
 # ----------------------------------------------------------------------------- main
+def sec_rows_evaluated_with_their_own_mask_and_state(ck, algo, B=2):
+    """the loss re-evaluates every stored sample with ITS OWN policy state and action mask (masks offered by the environment are the ones applied;
+    on data collected by the current policy the ratios are 1): traced with a stateful, mask-taking uninterpreted policy"""
+    from jaxsmt.harness import UFACPolicy, UFCall, UFEnv, UFPolState
+    from lerax.space import Discrete
+    env = UFEnv(Discrete(3), masked=True)
+    pol = UFACPolicy(env, stateful=True)
+    buf = RolloutBuffer(observations=jnp.zeros((B, 2)), actions=jnp.zeros(B, int), rewards=jnp.zeros(B), dones=jnp.zeros(B, bool), log_probs=jnp.zeros(B), values=jnp.zeros(B),
+                        states=UFPolState(jnp.zeros((B, 1))), action_masks=jnp.ones((B, 3), bool), returns=jnp.zeros(B), advantages=jnp.zeros(B))
+    f = loss_fn(algo, False, False)
+    tr = trace(f, pol, buf, jnp.array(0.25), jnp.array(0.5), jnp.array(0.125), argnames=["pol", "buf", "cc", "vc", "ec"], label=f"{algo}_loss with policy state and action masks")
+    ck.encoded(tr)
+    it = Interp()
+    S = tr.symbols(it)
+    out = tr.run(it, S)
+    U = UFCall(it)
+    ents, lps, vs = [], [], []
+    for i in range(B):
+        h, v, lp, ent = U("EV", [((1,), "float32")] + [((), "float32")] * 3, S["pol_theta"], S["buf_states_h"][i], S["buf_observations"][i], np.array([S["buf_actions"][i]], dtype=object),
+                          S["buf_action_masks"][i])
+        ents.append(ent[()])
+        lps.append(lp[()])
+        vs.append(v[()])
+    # structural: every evaluation in the traced loss is one of these row-wise applications (its own state, observation, action and mask)
+    want_ids = {x.get_id() for x in ents + lps + vs}
+    got = {t.get_id() for nm, oi, idx, ops, t in it.uf_apps if nm == "EV" and oi in (1, 2, 3)}
+    ck.fact(f"{algo}.rows_evaluated_with_own_state_and_mask", got == want_ids and len(got) == 3 * B,
+            f"{len(got)} evaluate_action outputs in the trace; {len(got & want_ids)} of them are EV(theta, state_i, obs_i, action_i, mask_i) of their own row")
+    if "entropy" in out:
+        want = it.o.neg(it.o.fdiv(sum(ents[1:], ents[0]), B))
+        ck.prove(f"{algo}.entropy_term_with_masks@B={B}", [], core.eq_elem(out["entropy"][()], want),
+                 replay=lambda res: concrete.replay_outputs(tr, S, res, uf_apps=it.uf_apps, oracle={"entropy": arr0(want)}))
+    if algo == "ppo":
+        # on data collected by the current (masked) policy every ratio is 1 and the approximate KL is 0
+        A = [S["buf_log_probs"][i] == lps[i] for i in range(B)]
+        ck.prove(f"ppo.kl_zero_on_policy_with_masks@B={B}", A, core.eq_elem(out["approx_kl"][()], 0), nonlinear=True,
+                 replay=lambda res: concrete.replay_outputs(tr, S, res, uf_apps=it.uf_apps, oracle={"approx_kl": arr0(0)}))
+
+
 def main():
     ck = Check("C08", "on-policy losses equal the published objectives")
     ck.mode = "REAL"
@@ -584,6 +623,9 @@ def main():
             for B in Bs:
                 with ck.section(f"{algo}@B={B},norm={int(NORM)}"):
                     sec_loss(ck, algo, B, NORM, False, eps, controls=(B == Bs[1]), timeout=300 if (NORM and B >= 3) else None)
+    for algo in ("ppo", "a2c", "reinforce"):
+        with ck.section(f"masks_and_states.{algo}"):
+            sec_rows_evaluated_with_their_own_mask_and_state(ck, algo)
     # ---- gradient consequence
     gcfg = [(2, False, False)] + ([(2, True, True), (3, False, True)] if th else [])
     for B, NORM, CLIPV in gcfg:
